@@ -52,6 +52,11 @@ def one_run(cfg: str, args_pre: list, root: Path, cwd: Path, want_spdx: bool, ru
     kw = {"env": env} if env else {}
     r = run([*args_pre, "lint", "--json"], cwd=cwd, **kw)
     res = {"cfg": cfg, "exit": r["exit"], "lint": "", "spdx": "", "crash": ""}
+    if r["exit"] == 2 and not r["exc"]:
+        # a project the tool refuses (usage error) is a result too: it has to be refused under every setting alike
+        msg = [ln for ln in (r["err"] or r["out"] or "").splitlines() if ln.startswith("Error:")]
+        res["lint"] = "refused: " + " ".join(msg)[:300].replace(str(root), "<root>")
+        return res
     if r["exc"] or r["exit"] not in (0, 1):
         res["crash"] = f"{cfg}: " + (r["exc"] or r["err"] or "")[-400:]
         return res
@@ -104,6 +109,11 @@ def run_case(case: dict) -> dict:
                 tag = "SPDX-License-Identifier: " + f["own"]["lic"][0]["text"]
                 fp.write_text(txt.replace(tag, tag + " " + f["_stack"], 1) if case["stacked"] == "spaced"
                               else txt.replace(tag, tag + f["_stack"].replace(" ", ""), 1))
+        if case.get("dup_license"):
+            # two texts for one identifier: the tool refuses such a project - under every enumeration order alike
+            (root / "LICENSES").mkdir(exist_ok=True)
+            (root / "LICENSES" / "LicenseRef-twice.txt").write_text("first text of LicenseRef-twice\n")
+            (root / "LICENSES" / "LicenseRef-twice.md").write_text("# second, different text of LicenseRef-twice\n")
         sub = next((x for x in sorted(root.iterdir()) if x.is_dir() and x.name not in ("LICENSES", ".reuse")), root)
         base = ["--root", str(root), "--no-multiprocessing"]
         runs = []
@@ -111,7 +121,7 @@ def run_case(case: dict) -> dict:
         # directory listing order
         for s in range(case["scandir_seeds"]):
             with schedshim.permuted_scandir(case["seed"] * 10 + s):
-                runs.append(one_run(f"serial|scandir-perm={s}", base, root, d, s == 0))
+                runs.append(one_run(f"serial|scandir-perm={s}", base, root, d, s == 0 or bool(case.get("dup_license"))))
         # root spellings and working directories
         rel_from_sub = os.path.relpath(root, sub)
         spell = [("cwd=root|root=.", ["--root", ".", "--no-multiprocessing"], root),
@@ -154,7 +164,7 @@ def run_case(case: dict) -> dict:
                                               for s in pool_procs(logdir, entry["parent"], entry["order"])]})
         # string hash seeds need fresh interpreters
         for hs in case["hash_seeds"]:
-            runs.append(one_run(f"subprocess|PYTHONHASHSEED={hs}", ["--root", str(root)], root, d, hs == case["hash_seeds"][0],
+            runs.append(one_run(f"subprocess|PYTHONHASHSEED={hs}", ["--root", str(root)], root, d, True,
                                 runner=core.run_reuse_subprocess, env={"PYTHONHASHSEED": str(hs)}))
         for r in runs:
             if r["crash"] and not ev["crash"]:
@@ -218,10 +228,11 @@ def run(ctx: core.Ctx) -> int:
                       "home": [".", "subprojects", "LICENSES/x", ".", "my dir/.reuse"][i % 5],
                       "rootname": ["root", "root", "subprojects", "LICENSES", "root", ".reuse", "COPYING", "x.license"][i % 8],
                       "copyname": [None, "subprojects", "other", "LICENSES", ".git", "a.spdx", "REUSE.toml"][i % 7],
+                      "dup_license": i % 6 == 5,
                       "scandir_seeds": 2 if q else 4,
                       "scheds": rnd.sample(scheds, min(len(scheds), 3 if q else 8)),
                       "real_workers": [1, 2, 16] if q else [1, 2, 3, 4, 8, 16],
-                      "hash_seeds": ([0, 1, 2, 3] if i % 4 == 0 else []) if q else [0, 1, 2, 3, 4, 5]})
+                      "hash_seeds": ([1, 2, 3, 4] if i % 4 == 0 else []) if q else [1, 2, 3, 4, 5, 6]})
     events = ctx.pmap(run_case, cases, chunksize=1, daemon=False)
     n_runs = sum(len(e["runs"]) for e in events)
     for ev in events[:2]:
